@@ -21,6 +21,9 @@ pub struct PfCase {
     pub kinds: u32,
     pub bug_seed: u64,
     pub qseed: u64,
+    /// which incarnation of the tree is queried: 0 = as built, 1 = reloaded from its bincode serialization, 2 = a clone
+    #[serde(default)]
+    pub life: u8,
 }
 
 pub fn gen_case(run_seed: u64, tier: Tier) -> PfCase {
@@ -67,7 +70,12 @@ pub fn gen_case(run_seed: u64, tier: Tier) -> PfCase {
     // symbol values: dense, or spread so that plain trees get many levels
     let spread = if alias.is_huffman() { 1 } else { *rng.pick(&[1u128, 1, 3, 17, 255]) };
     let cap = if alias.is_huffman() { ty.max().min(1 << 16) } else { ty.max() };
-    let mut syms: Vec<u128> = (0..d as u128).map(|k| (k * spread).min(cap)).collect();
+    // plain trees: sometimes the top of the type's range (many levels, symbols above 2^32 / 2^64)
+    let top = !alias.is_huffman() && rng.chance(1, 4);
+    let mut syms: Vec<u128> = (0..d as u128)
+        .map(|k| if top { cap - (k * spread).min(cap) } else { (k * spread).min(cap) })
+        .collect();
+    syms.sort();
     syms.dedup();
     let counts = counts[..syms.len()].to_vec();
     let arrange = *rng.pick(&[Arrange::Shuffled, Arrange::Shuffled, Arrange::SortedRuns, Arrange::RandomRuns, Arrange::Periodic]);
@@ -97,6 +105,11 @@ pub fn gen_case(run_seed: u64, tier: Tier) -> PfCase {
         kinds,
         bug_seed: frng.next_u64(),
         qseed: stream(run_seed, "queries").next_u64(),
+        life: match frng.below(6) {
+            0 | 1 => 1,
+            2 => 2,
+            _ => 0,
+        },
     }
 }
 
@@ -130,6 +143,33 @@ pub fn exec(case: &PfCase) -> RunOut {
             out.digest = 5;
             return out;
         }
+    };
+    // the statement is about every tree of these types, however it came to be: also a reloaded one and a clone
+    let t = match case.life {
+        1 => {
+            let r = catch(|| {
+                let bytes = crate::ds::ser_vec(t.as_ref(), 0)?;
+                t.de_from(0, &mut &bytes[..])
+            });
+            match r {
+                Ok(Ok(y)) => {
+                    out.count("incarnation.reloaded", 1);
+                    y
+                }
+                _ => {
+                    out.count("reload_failed", 1); // C11's subject
+                    t
+                }
+            }
+        }
+        2 => match catch(|| t.clone_box()) {
+            Ok(y) => {
+                out.count("incarnation.clone", 1);
+                y
+            }
+            Err(_) => t,
+        },
+        _ => t,
     };
     let levels = match t.answer(&Q::NLevels) {
         A::U(Sym(l)) => l as usize,
